@@ -62,6 +62,18 @@ CHECKS["C12"] = dict(
    text="TLC explores every interleaving of buffered writes, flushes, crash and disk-full in the model of StoreToDisk's mutation order and shows success implies an exactly loadable backup and every crash image loads as error or exact. The real StoreToDisk runs in a child under every file-size limit from 0 to the largest file (writes fail with EFBIG) and under strace; the recorded mutation sequence is compared with the model's order and every prefix is rebuilt as a directory and given to the real LoadFromDisk; TLC judges ret=ok => exact and crash-prefix outcomes in {error, exact}.",
    design_ref="DESIGN.md 4.6, 6 (C12)", note=BK_NOTE)
 
+AB_NOTE = ("Trusted: TLC, the gate scheduler (goroutines parked at the verif yield points of access_barrier.go, one released at a time => sequentially consistent executions; "
+           "weak-memory effects are out of scope), harness event logging. Bounds: exhaustive 1-2 accessors x 2 calls + 2 flushers (thorough: nested holders, flusher holding a token, 3 flushes); "
+           "gate/free-running scenarios up to 4 accessors and 3 flushers.")
+CHECKS["C16"] = dict(
+   technique="TLA+ model AccessBarrier.tla (one action per atomic operation) exhausted by TLC; TLC-simulated behaviours replayed as gate schedules on the real barrier; TLC trace validation at API grain (BarrierAPI.tla) and step conformance (Trace_AccessBarrier.tla)",
+   text="TLC enumerates every interleaving of the barrier's atomic steps for the bounded instances and checks in-order/once destruction, waiting for earlier accessors, no holder in a destructed session and the code's two panics. The real barrier is executed under a deterministic gate scheduler following TLC-simulated behaviours and seeded random schedules, plus free-running goroutines; every execution is validated by TLC: destructor invocations relative to Acquire/Release/FlushSession events decide the property, and the real counters must equal the model's after every step (binding).",
+   design_ref="DESIGN.md 4.2, 6 (C16/C17)", note=AB_NOTE)
+CHECKS["C17"] = dict(
+   technique="TLA+ model AccessBarrier.tla (NothingPending at quiescence) exhausted by TLC; gate-scheduled and free-running executions of the real barrier validated by TLC (BarrierAPI.tla: quiescent => destructor calls = flush calls)",
+   text="Liveness at quiescence is a state invariant of the model (Quiescent => every flush destructed) that TLC checks over all interleavings, in particular two sessions terminating at nearly the same time; on the real barrier the harness emits a Quiesce event whenever every process is idle and no token is held, under TLC-simulated and random gate schedules and at the end of free-running runs, and TLC requires destructor calls = FlushSession calls there.",
+   design_ref="DESIGN.md 4.2, 6 (C16/C17)", note=AB_NOTE)
+
 NOT_YET = "check not built yet (work in progress; see DESIGN.md section 8.1 build order)"
 
 def main():
